@@ -913,7 +913,8 @@ class Operations:
         degree = knotvector.degree
         oldspan = knotvector.span(node)
         oldmult = knotvector.mult(node)
-        one = node / node
+        one = (knotvector[-1] - node) + (node - knotvector[0])
+        one = one / one
         matrix = np.zeros((oldnpts + 1, oldnpts), dtype="object")
         for i in range(oldspan - degree + 1):
             matrix[i, i] = one
